@@ -45,8 +45,35 @@ func (c *Config) Rand() *rand.Rand { return rand.New(rand.NewSource(c.Seed)) }
 
 // ---- Coq printers ----
 
-// B renders a byte string as the Coq term (x "hex").
+// B renders a byte string as a Coq term of type bytes: (p n [w1%uint63; ...]), seven bytes
+// per primitive integer (coq/Base/Pack.v) — about 13x cheaper for coqc to read than a hex
+// string literal.
 func B(s string) string {
+	if s == "" {
+		return "[]"
+	}
+	var sb strings.Builder
+	fmt.Fprintf(&sb, "(p %d [", len(s))
+	for i := 0; i < len(s); i += 7 {
+		end := i + 7
+		if end > len(s) {
+			end = len(s)
+		}
+		var w uint64
+		for j := i; j < end; j++ {
+			w = w<<8 | uint64(s[j])
+		}
+		if i > 0 {
+			sb.WriteString("; ")
+		}
+		fmt.Fprintf(&sb, "%d%%uint63", w)
+	}
+	sb.WriteString("])")
+	return sb.String()
+}
+
+// Hex renders a byte string as the hex-literal form (x "..."), for hand-readable output.
+func Hex(s string) string {
 	if s == "" {
 		return "[]"
 	}
@@ -147,7 +174,7 @@ func (o *Out) Flush() error {
 			end = len(o.cases)
 		}
 		var sb strings.Builder
-		sb.WriteString("From Coq Require Import String.\nFrom OCI Require Import Base.Outcome " + o.Module + ".\n")
+		sb.WriteString("From Coq Require Import String PrimInt63.\nFrom OCI Require Import Base.Outcome Base.Pack " + o.Module + ".\n")
 		sb.WriteString("Set Printing Width 1000000.\nSet Printing Depth 1000000.\n")
 		sb.WriteString(o.Preamble)
 		sb.WriteString("Definition cases : list case := [\n")
